@@ -3,8 +3,10 @@
 R1 who may write the cursor cells / move the offset; R2 the offset write is
 bounded by the current input; R3 peek -> check -> commit -> push with nothing
 fallible after the commit; R4 open/close are a LIFO pair on one stash."""
-from ..core import (callee_of, expr_walk, expr_str, return_defs, short, op_place, MissingAnchor, runtime_targets)
+from ..core import (callee_of, expr_walk, expr_str, return_defs, short, op_place, MissingAnchor, runtime_targets, expr_subst_args)
 from ..pathq import try_continue_block, try_break_block, bool_branch, blocks_after, cmp_of, exists_path_avoiding
+from ..zone import strip as zstrip
+from .. import inline
 
 EXPLANATION = (
     "The cursor is three heap cells (BitstrState.input/offset/stash) reached only through State::set_var/update_var/"
@@ -60,8 +62,11 @@ def run(rep, facts, tier):
 
     # ---------- R1
     n = 0
+    V = inline.View(fx)       # private helpers that no rule names are looked through: their writes count as their callers'
     for fn in sorted(fx.fns):
-        f = fx.fns[fn]
+        if V.transparent(fn) and fx.callers().get(fn):
+            continue
+        f = V(fn)
         for bb, t in f.calls():
             c = callee_of(t)
             if c in WRITERS and len(t['args']) > 1:
@@ -115,7 +120,8 @@ def run(rep, facts, tier):
                 if lower and upper and same else
                 'offset write not bounded by the current input (lower=%s upper=%s writes-checked-pos=%s)' % (lower, upper, same),
                 MOVE, t.get('at'))
-    of = fx.need('bitstr_ext::open_bitstr')
+    fx.need('bitstr_ext::open_bitstr')
+    of = V('bitstr_ext::open_bitstr')
     off_sets = [(bb, t) for bb, t in of.calls() if callee_of(t) in WRITERS and cell_of(of, t['args'][1]) == 'offset']
     in_sets = [(bb, t) for bb, t in of.calls() if callee_of(t) in WRITERS and cell_of(of, t['args'][1]) == 'input']
     for bb, t in off_sets:
@@ -176,30 +182,56 @@ def run(rep, facts, tier):
             'push_data can fail only through check_stack_limit' if okp else 'push_data has other failure sources: %s' % fall,
             pf.name, pf.j['span'])
 
-    # callers of the peeks: every Ok path ends in commit_read with end/value from the peek
+    # callers of the peeks: every Ok path ends in commit_read with end/value from the peek.
+    # A commit wrapper (a function that peeks nothing, whose every Ok path forwards commit_read and whose
+    # commit arguments are functions of its own parameters) is summarised and checked at its callers with
+    # the actual arguments substituted, so helper extraction does not change the verdict.
+    wrappers = {}     # fn -> [(e_end, e_val)] in terms of the wrapper's parameters
+    changed = True
+    while changed:
+        changed = False
+        for fn in sorted(fx.fns):
+            if fn in wrappers or fn == COMMIT:
+                continue
+            f = fx.fns[fn]
+            if any(callee_of(t) in PEEKS for _, t in f.calls()):
+                continue
+            sites = _commit_sites(f, wrappers)
+            if not sites:
+                continue
+            okdefs = [(bb, i, cls, d) for (bb, i, cls, d) in return_defs(f) if cls in ('ok', 'forward')]
+            if any(not (cls == 'forward' and (d == COMMIT or d in wrappers)) for (_, _, cls, d) in okdefs):
+                continue
+            if all(_mentions_arg(e_end) for (_, _, e_end, _) in sites):
+                wrappers[fn] = [(e_end, e_val) for (_, _, e_end, e_val) in sites]
+                changed = True
     n_readers = 0
     for fn in sorted(fx.fns):
         f = fx.fns[fn]
         peeks = [(bb, t) for bb, t in f.calls() if callee_of(t) in PEEKS]
-        if not peeks and not any(callee_of(t) == COMMIT for _, t in f.calls()):
+        sites = _commit_sites(f, wrappers)
+        if not peeks and not sites:
+            continue
+        key = 'C06.R3:%s' % fn
+        if fn in wrappers:
+            rep.add('C06.R3', key + ':commit-wrapper', True, 'forwards commit_read with arguments computed from its parameters: checked at its %d caller(s)'
+                    % len(fx.callers().get(fn, ())), fn, f.j['span'], nontrivial=False)
             continue
         n_readers += 1
-        commits = [(bb, t) for bb, t in f.calls() if callee_of(t) == COMMIT]
-        key = 'C06.R3:%s' % fn
         okdefs = [(bb, i, cls, d) for (bb, i, cls, d) in return_defs(f) if cls in ('ok', 'forward')]
-        bad = [d for (bb, i, cls, d) in okdefs if not (cls == 'forward' and d == COMMIT)]
-        if bad or not commits:
+        bad = [d for (bb, i, cls, d) in okdefs if not (cls == 'forward' and (d == COMMIT or d in wrappers))]
+        if bad or not sites:
             rep.add('C06.R3', key + ':ends-in-commit', False,
                     '%s peeks at the input but can return Ok without commit_read (%s): the bits are returned without advancing, or the offset '
                     'moves outside the protocol' % (short(fn), bad or 'no commit'), fn, f.j['span'])
             continue
         rep.add('C06.R3', key + ':ends-in-commit', True, 'every Ok path forwards commit_read', fn, f.j['span'], nontrivial=False)
-        for bb, t in commits:
-            e_end = f.expr_of_operand(t['args'][1])
-            e_val = f.expr_of_operand(t['args'][2])
+        for bb, t, e_end, e_val in sites:
             s_end = _s(e_end)
-            from_peek_end = any(isinstance(x, tuple) and x[0] == 'call' and x[1] == 'bitstr::Bitstr::end' and _mentions(x, PEEKS) for x in expr_walk(e_end)) \
-                or (_mentions(e_end, {'bitstr_ext::nulbytestr_peek'}) and True)
+            # the position IS end() of the peeked slice (or the end nulbytestr_peek computed) — not merely computed from it
+            top = zstrip(e_end)
+            from_peek_end = (isinstance(top, tuple) and top[0] == 'call' and top[1] == 'bitstr::Bitstr::end' and _mentions(top, PEEKS)) \
+                or (isinstance(top, tuple) and top[0] == 'proj' and _mentions(top, {'bitstr_ext::nulbytestr_peek'}) and not _has_arith(top))
             val_from_peek = _mentions(e_val, PEEKS)
             rep.add('C06.R3', key + ':advance-is-end-of-peeked-slice', from_peek_end,
                     'commit position is .end() of the slice peek returned' if from_peek_end else
@@ -228,6 +260,28 @@ def run(rep, facts, tier):
 
 def _s(e):
     return expr_str(e, -20)
+
+
+def _commit_sites(f, wrappers):
+    """[(bb, term, e_end, e_val)] for direct commit_read calls and calls of commit wrappers (arguments substituted)"""
+    out = []
+    for bb, t in f.calls():
+        c = callee_of(t)
+        if c == COMMIT:
+            out.append((bb, t, f.expr_of_operand(t['args'][1]), f.expr_of_operand(t['args'][2])))
+        elif c in wrappers:
+            actuals = [f.expr_of_operand(a) for a in t['args']]
+            for (e_end, e_val) in wrappers[c]:
+                out.append((bb, t, expr_subst_args(e_end, actuals), expr_subst_args(e_val, actuals)))
+    return out
+
+
+def _has_arith(e):
+    return any(isinstance(x, tuple) and x[0] in ('bin', 'un') for x in expr_walk(e))
+
+
+def _mentions_arg(e):
+    return any(isinstance(x, tuple) and x[0] == 'arg' for x in expr_walk(e))
 
 
 def _mentions(e, names):
@@ -299,7 +353,8 @@ def check_open(rep, fx, of):
 
 
 def check_close(rep, fx):
-    f = fx.need('bitstr_ext::word_close_bitstr')
+    fx.need('bitstr_ext::word_close_bitstr')
+    f = inline.View(fx)('bitstr_ext::word_close_bitstr')
     sets = {}
     for bb, t in f.calls():
         if callee_of(t) in WRITERS:
